@@ -8,7 +8,7 @@ execution per c = 1..N throws a unique Cancel instance into the task at its c-th
 
 from ..actors import World, InjectedFault
 from ..choice import Chooser, Streams
-from ..loop import PAUSE, Cancel, make_lock_type
+from ..loop import PAUSE, Cancel, CANCEL_TYPES, make_lock_type
 from ..runner import Outcome
 from ..tools import TOOLS, AGGS, TOOL_NAMES, AGG_NAMES, Gen, draw_cfg, lib
 from ..tooldiff import build_async, _objs
@@ -101,12 +101,14 @@ def prepare(ch):
 
 
 def fault_lists(prep, faults):
-    return [[c] for c in range(1, prep.n_susp + 1)] or [[1]]
+    # the value replayed is c - 1 (run_prepared adds 1): suspension points 1..N
+    return [[c, faults.draw(len(CANCEL_TYPES))] for c in range(0, prep.n_susp)] or [[0, 0]]
 
 
 # --------------------------------------------------------------------------- one execution
-def run_once(prep, st, cancel_at, interrupts):
+def run_once(prep, st, cancel_at, interrupts, cancel_type=Cancel):
     sim = new_sim(st, interrupts=False)
+    sim.cancel_type = cancel_type
     set_interrupts(sim, interrupts)
     info = {"problems": [], "target": None, "reached": False, "leaving": None, "detail": {}}
     runner = {"op": run_op, "tee": run_tee, "lru": run_lru, "cprop": run_cprop, "stack": run_stack,
@@ -151,6 +153,8 @@ def run_op(prep, st, sim, info, cancel_at):
                     await it.__anext__()
                 except StopAsyncIteration:
                     break
+                except Cancel:
+                    raise  # (a cancellation may also be an instance of TypeError / ValueError)
                 except (TypeError, ValueError):
                     break
                 n += 1
@@ -510,13 +514,16 @@ def run_prepared(prep, st, ctx):
     out = Outcome()
     out.fault_free = False
     c = 1 + st.faults.draw(max(prep.n_susp, 1))
-    sim, info = run_once(prep, st, c, (0, 0, 5, 2)[prep.interrupt])
+    # what is thrown in is the loop's choice: a bare BaseException subclass, or one that is also an instance of an
+    # ordinary exception class (AttributeError, KeyError, ...) which library code may be catching for other reasons
+    ctype = CANCEL_TYPES[st.faults.draw(len(CANCEL_TYPES))]
+    sim, info = run_once(prep, st, c, (0, 0, 5, 2)[prep.interrupt], ctype)
     target = info["target"]
     fired = sim.cancel_sent is not None
     sig = (prep.cls,)
 
     def describe():
-        return dict(info["detail"], cls=prep.cls, cancel_at=c, suspension_points=prep.n_susp,
+        return dict(info["detail"], cls=prep.cls, cancel_at=c, thrown_in=ctype.__name__, suspension_points=prep.n_susp,
                     fired_at=sim.cancel_fired_at, task_error=repr(target.error))
 
     if sim.deadlock:
